@@ -433,6 +433,20 @@ def falsify_C12(ctx):
         reasons = sorted(exactness_reasons(src, lambda t, d: int(real([f'na {gen.arr_str(t)} {d}'])[0])))
         bad_dom = next((x for x in range(far + 1) if dt[x] < st[x]), None)
         bad_eq = next((x for x in range(min(eq_upto, far) + 1) if dt[x] != st[x]), None)
+        if bad_dom is None and kind == "conv" and src[0] in ("per", "spo"):
+            # the conversions unroll n = max(500, 10 * ceil(J / T)) jobs: probe the interval lengths around
+            # the end of the unrolled prefix and of its first repetitions (far beyond `far`)
+            T_, J_ = src[1], (src[2] if len(src) > 2 else 0)
+            n_ = max(500, 10 * (-(-J_ // T_)))
+            probes = sorted({x for k_ in (1, 2, 3) for x in range(max(k_ * n_ * T_ - k_ * J_ - 3, 1), k_ * n_ * T_ + T_ + 3)})
+            if len(probes) <= 400:
+                rs_ = real([f"na {ss} {x}" for x in probes] + [f"na {term} {x}" for x in probes])
+                for x, u, v in zip(probes, rs_[:len(probes)], rs_[len(probes):]):
+                    if u.isdigit() and v.isdigit() and int(v) < int(u):
+                        far_bad = (x, int(v), int(u))
+                        cex.append({"kind": "derived_smaller_than_source", "op": f"na {term} {x}", "impl": int(v), "source": int(u),
+                                    "source_subadditive": True, "reasons": reasons, "beyond_unrolled_prefix_of_jobs": n_})
+                        break
         if bad_dom is not None:
             cex.append({"kind": "derived_smaller_than_source", "op": f"na {term} {bad_dom}", "impl": dt[bad_dom], "source": st[bad_dom],
                         "source_subadditive": sub, "reasons": reasons})
